@@ -3,7 +3,7 @@
 //     (signature line to the closing brace at column 0, nothing dropped), the requires/ensures clauses
 //     below are inserted after the signature and one ghost `proof { .. }` line after the opening brace;
 //   * the lemmas that justify the ghost stubs and the integer comparisons of harness/b_div.rs follow.
-// @v name=verus_div props=C01,C16 tier=quick t=120 extract=src/lib.rs:div,lldiv cex=leaf_div,leaf_lldiv fn=crate::div,crate::lldiv
+// @v name=verus_div props=C01 tier=quick t=120 extract=src/lib.rs:div,lldiv cex=leaf_div,leaf_lldiv fn=crate::div,crate::lldiv
 use vstd::prelude::*;
 verus! {
 
